@@ -323,6 +323,30 @@ def install():
             self._vseq = id(self)
 
     sdeps.Dependency.__init__ = dep_init
+
+    # sets of dependencies are iterated by the scheduler (registration order in aio_submit, lock order in aio_start, wake-up order
+    # of dependents): in creation order, or in reverse creation order under a "<policy>+rev" policy
+    class VOrderedSet(set):
+        def __iter__(self):
+            items = sorted(set.__iter__(self), key=lambda d: getattr(d, "_vseq", 0))
+            if V.W is not None and getattr(V.W, "deporder", "fwd") == "rev":
+                items.reverse()
+            return iter(items)
+
+    orig_job_init = sbase.Job.__init__
+
+    def job_init(self, *a, **k):
+        orig_job_init(self, *a, **k)
+        self.dependencies = VOrderedSet(self.dependencies)
+
+    sbase.Job.__init__ = job_init
+    orig_dependents_init = sdeps.Dependents.__init__
+
+    def dependents_init(self, *a, **k):
+        orig_dependents_init(self, *a, **k)
+        self._dependents = VOrderedSet(self._dependents)
+
+    sdeps.Dependents.__init__ = dependents_init
     sdeps.Dependency.__hash__ = lambda self: self._vseq
     sdeps.Dependency.__eq__ = lambda self, other: self is other
 
